@@ -466,6 +466,21 @@ class Config:
                 value = default_bool
             else:
                 value = str_to_value(value)
+            if value is not None and not isinstance(value, bool):
+                raise ValueError(
+                    f"Illegal value {value!r} "
+                    f"for attribute {attribute!r}. Expected bool.")
+        elif attribute in Config._INT_TYPE_ATTRIBUTES:
+            value = str_to_value(value)
+            if value is not None and (
+                    isinstance(value, bool) or not isinstance(value, int)):
+                raise ValueError(
+                    f"Illegal value {value!r} "
+                    f"for attribute {attribute!r}. Expected int.")
+        elif attribute == 'layout':
+            value = str_to_value(value)
+            if value is not None and value not in _IMPLEMENTED_LAYOUTS:
+                raise ValueError(f"Illegal layout {value!r}")
         elif attribute == 'default_ns':
             if value is not None:
                 value = verify_default_ns(value)
